@@ -56,3 +56,6 @@ add("C16", "exploration", "exhaustive probing of a source-derived name grid and 
 add("C15", "exploration", "structure-aware hostile-input generation against in-process handlers (supervised child, inputs logged first) and against the built pool/agent binaries as child processes with crash-signature extraction and canary connections",
     "Requests per endpoint with hostile arities/leaves/signatures and correctly signed hostile parameters; byte/shape garbage; unsolicited, duplicate and empty replies; a harness playing malicious host and malicious pool; process death, panics, missing or malformed replies and unanswered canaries are violations.",
     "Coverage is the generated corpus (counts per class in evidence). ASan/race builds only in the thorough tier. A process-fatal error is attributed to the last logged input.")
+add("C13", "fault_enumeration", "process-kill harness (child writer with start/ack log, SIGKILL at PRNG-chosen acknowledgement counts; strace write-fault injection at value-log boundaries in the thorough tier) + model comparison after reopen; reader invariant monitor; raw key-space diff for migrations",
+    "On-disk badger opened like pool.go: close/reopen inside model-checked histories; SIGKILL of a writer child at chosen points with the reopened state compared to the model after the acknowledged prefix (or prefix+1 for the in-flight operation); concurrent readers of the ledger total during link operations; version matrix 0/1/current/current+1 with byte-level key comparison.",
+    "Only process kill, not power loss; kill points are a sample (quick) or the value-log write boundaries reachable by strace injection (thorough); kills are armed after Open returned.")
